@@ -188,8 +188,26 @@ func runC02(rc *RunCtx, torn bool) *simkit.Violation {
 		fi := t.Choose(nClients)
 		cl := w.Client(fmt.Sprintf("c%d", fi))
 		w.Faults = &simkit.FaultCfg{Plan: []*simkit.Planned{{Client: cl.Name, Nth: t.Range(0, 4), Kind: simkit.Kind(int(simkit.FErr) + t.Choose(2))}}}
+		if t.Bool(1, 2) {
+			// a short outage on one blob: its write fails 1..4 times in a row (whatever retries the writer makes)
+			tmp := map[string][]byte{}
+			expectedBlobs(contents[ci], kn.leaf, tmp)
+			ks := sortedKeys(tmp)
+			victimKey := ks[t.Choose(len(ks))]
+			times := t.Range(1, 4)
+			w.Faults = &simkit.FaultCfg{Plan: []*simkit.Planned{{Client: cl.Name, Kind: simkit.FErr, Times: times, Match: func(c *simkit.Call) bool {
+				return (c.Op == simkit.OpPut || c.Op == simkit.OpPutExcl) && c.Key == victimKey
+			}}}}
+			w.Note("outage: the write of blob %s… fails %d time(s) in a row", victimKey[:10], times)
+		}
 		src, _ := drawSource(t, contents[ci], kn.leaf)
-		ft := w.Go(cl, "put-failing", func() (interface{}, error) { return fss[fi].Put(bg, src) })
+		ft := w.Go(cl, "put-failing", func() (interface{}, error) {
+			res, err := fss[fi].Put(bg, src)
+			if err == nil {
+				ackCheck(ci, "Put under a store outage on one blob")
+			}
+			return res, err
+		})
 		if v := w.Run(); v != nil {
 			v.Property = prop
 			return v
